@@ -29,17 +29,17 @@ def fired_per_tick(events, dt, nticks):
     return out
 
 
-def trajectory(events, dt, nticks, varkeys, init=0):
+def trajectory(events, dt, nticks, varkeys, init=0, inc=1):
     """Expected emitted values at times 0, dt, ..., nticks*dt when a step adds
-    1 to every variable in every step phase (construction included) and the
+    `inc` to every variable in every step phase (construction included) and the
     sets fired in tick k are applied at (k+1)*dt, before that phase."""
     fired = fired_per_tick(events, dt, nticks)
-    cur = {k: init + 1 for k in varkeys}
+    cur = {k: init + inc for k in varkeys}
     rows = [dict(cur)]
     for k in range(nticks):
         for key, v in fired[k].items():
             cur[key] = v
         for key in varkeys:
-            cur[key] += 1
+            cur[key] += inc
         rows.append(dict(cur))
     return rows
